@@ -1,6 +1,8 @@
 package sim
 
 import (
+	"os"
+	"encoding/json"
 	"context"
 	"database/sql"
 	"database/sql/driver"
@@ -73,6 +75,34 @@ func (s *SimSQL) Dump() map[string]map[string]map[string]any {
 	s.mu.Lock()
 	defer s.mu.Unlock()
 	return cloneTables(s.Tables, true)
+}
+
+// LoadRows restores rows dumped by Dump (after a JSON round trip) into tables
+// that already exist (the stores create them on construction).
+func (s *SimSQL) LoadRows(d map[string]map[string]map[string]any) {
+	s.mu.Lock()
+	defer s.mu.Unlock()
+	for n, rows := range d {
+		t := s.Tables[n]
+		if t == nil {
+			continue
+		}
+		for pk, r := range rows {
+			rr := map[string]any{}
+			for c, v := range r {
+				switch x := v.(type) {
+				case json.Number:
+					i, _ := x.Int64()
+					rr[c] = i
+				case float64:
+					rr[c] = int64(x)
+				default:
+					rr[c] = v
+				}
+			}
+			t.Rows[pk] = rr
+		}
+	}
 }
 
 func cloneTables(ts map[string]*sqlTable, plain bool) map[string]map[string]map[string]any {
@@ -225,6 +255,7 @@ func (c *simConn) unknown(q string) error {
 	c.s.mu.Lock()
 	c.s.Unk = append(c.s.Unk, q)
 	c.s.mu.Unlock()
+	fmt.Fprintln(os.Stderr, "verif: SimSQL statement not modelled:", q)
 	return fmt.Errorf("%w: %s", ErrSimSQLUnknown, q)
 }
 
